@@ -58,6 +58,25 @@ CHECKS["C01"] = (
     "5.C01",
 )
 
+CHECKS["C08"] = (
+    "bounded symbolic execution (CrossHair+z3) over symbolic rule kinds per collection position and the collect_errors flag; one shared backend/pipeline vs fresh per-rule conversions of the real Backend.convert",
+    "3-rule collections, each rule of one of 15 kinds (ok with 1/2 conditions, failing in the pipeline / with an unresolved placeholder / with a value the backend rejects / with a missing detection / inside negated rendering, output disabled, rules sharing condition text and field names, state-setting marker rule, unmapped / target field names), collect_errors on/off, 4 backend+pipeline set-ups. Oracle: output == concatenation of the stand-alone results in order, exactly one (rule, error) per failing rule, first error raised without collection.",
+    TB,
+    "5.C08",
+)
+CHECKS["C14"] = (
+    "bounded symbolic execution (CrossHair+z3) over symbolic priorities / spec-list arrangements / bracketings / stage configurations; composed pipelines compared with one pipeline defined with the concatenated items, by structure and by converting probe rules",
+    "Resolver: 4 named pipelines, priorities 0..1 (quick) / 0..2 (thorough), all 64 ordered spec lists, resolved once or twice. Addition: 8 bracketing/history variants x 4 probe shapes. Backend stages: backend/user/output-format pipelines present or absent x output format omitted/default/alt x 1..2 rules x 1..2 conditions. Order is observed through order-sensitive marker items (field suffix, query embedding, output concatenation).",
+    TB,
+    "5.C14",
+)
+CHECKS["C15"] = (
+    "bounded symbolic execution (CrossHair+z3) over symbolic operation histories on shared backend/pipeline/cache state followed by a probe conversion, compared with a fresh set-up",
+    "All histories of <= 3 (quick) / 4 (thorough) operations out of 10 kinds (load, convert collection, convert single rule, init pipeline, second backend with own / with the SAME pipeline object, conversions failing in the pipeline / in conversion / inside negated rendering) x 6 probe rules x 2 entry points (convert, convert_rule) x 3 set-ups; also asserts the backend class templates are unchanged after every history.",
+    TB,
+    "5.C15",
+)
+
 NOT_APPLICABLE = {}
 
 ALL = [f"C{n:02d}" for n in range(1, 21)]
